@@ -63,9 +63,14 @@ class _RawMixin:
     def cancel(self):
         pass
 
+    on_packet = None
+
     def process_packet(self, pkttype, pktid, packet):
-        if self.raw and (pkttype >= 50 or pkttype == 3):
-            self.inbox.append((pkttype, packet.get_full_payload()))
+        if self.raw and (pkttype >= 50 or pkttype in (3, 5, 6, 7)):
+            payload = packet.get_full_payload()
+            self.inbox.append((pkttype, payload))
+            if self.on_packet is not None:
+                self.on_packet(pkttype, payload)
             return True
         return super().process_packet(pkttype, pktid, packet)
 
@@ -78,6 +83,8 @@ class _RawMixin:
 
 
 class RawClientConnection(_RawMixin, _c.SSHClientConnection):
+    hold_service = False        # True: go raw before SERVICE_REQUEST is sent
+
     def __init__(self, *a, **kw):
         super().__init__(*a, **kw)
         self._raw_init()
@@ -85,9 +92,47 @@ class RawClientConnection(_RawMixin, _c.SSHClientConnection):
     def try_next_auth(self, *, next_method=False):
         self._enter_raw()
 
+    def send_service_request(self, service):
+        if self.hold_service:
+            self._next_service = service
+            self._enter_raw()
+        else:
+            super().send_service_request(service)
 
-async def raw_connect(host, port, **kwargs):
-    """Connect, run the key exchange and service request, then go raw."""
+
+class RawServerConnection(_RawMixin, _c.SSHServerConnection):
+    """Server-side raw peer: real version exchange / key exchange (host key
+    signature included), everything else is recorded and scripted."""
+
+    def __init__(self, *a, **kw):
+        super().__init__(*a, **kw)
+        self._raw_init()
+        self.raw = True
+        self._auth = self
+        self._auth_complete = True
+        self._channels = _AnyChan(self)
+
+
+async def raw_listen(host, port, on_conn, **kwargs):
+    """Listen with raw server connections; on_conn(conn) is called for each
+    new connection object (before any packet is processed)."""
+    loop = asyncio.get_event_loop()
+    kwargs.setdefault('server_factory', asyncssh.SSHServer)
+    options = await _c.SSHServerConnectionOptions.construct(
+        None, config=None, host=host, port=port, **kwargs)
+
+    def factory():
+        conn = RawServerConnection(loop, options, wait=None)
+        on_conn(conn)
+        return conn
+
+    return await _c._listen(options, None, loop, 0, 100, None, None, None,
+                            factory, 'Creating raw SSH listener on')
+
+
+async def raw_connect(host, port, hold_service=False, **kwargs):
+    """Connect, run the key exchange and service request, then go raw
+    (hold_service: go raw right after NEWKEYS, before SERVICE_REQUEST)."""
     loop = asyncio.get_event_loop()
     kwargs.setdefault('known_hosts', None)
     kwargs.setdefault('username', 'rawpeer')
@@ -97,7 +142,9 @@ async def raw_connect(host, port, **kwargs):
         None, config=None, host=host, port=port, **kwargs)
 
     def factory():
-        return RawClientConnection(loop, options, wait='auth')
+        conn = RawClientConnection(loop, options, wait='auth')
+        conn.hold_service = hold_service
+        return conn
 
     return await _c._connect(options, None, loop, 0, None, factory,
                              'Opening raw SSH connection to')
